@@ -113,7 +113,8 @@ def main(argv=None):
             if pid in props_: soft.append((name, k_, 'contracted function no longer exists'))
         for (own, msg) in r.rlimit:
             if pid in g.owner_props.get(own, [pid]):
-                undecided.append('%s: resource limit in %s' % (name, own))
+                # the solver gave up on a function that verifies on the unchanged tree: undecided by the verifier; the bounded stand-in may still find a failing input
+                soft.append((name, own, 'resource limit exceeded while verifying %s (undecided by the verifier)' % own))
     for k in kres:
         cmds.append(k['cmd'])
         n_obl += k.get('checks', 1)
